@@ -1,6 +1,7 @@
 (* C15 — property theorems only. Each is closed by `exact <lemma>` and followed by Print Assumptions. *)
-From Coq Require Import ZArith List Permutation.
-From GeosV.C15 Require Import STRDefs STRProofs STRHistory STRSize.
+From Coq Require Import ZArith List Permutation Lia.
+From GeosV.C15 Require Import STRDefs STRProofs STRHistory STRSize GenPreludeSTR STRGen.
+From GeosV.Gen Require Import STR_sliceCount STR_sliceCapacity STR_treeSize.
 Import ListNotations.
 Local Open Scope Z_scope.
 
@@ -47,6 +48,22 @@ Theorem C15_treeSize_exact : forall cap leaves t, (2 <= cap)%nat -> leaves_ok le
   treeSize cap (length leaves) = Some (nnodes t).
 Proof. exact treeSize_exact. Qed.
 Print Assumptions C15_treeSize_exact.
+
+(* tie G: the packing arithmetic REGENERATED from TemplateSTRtree.h on every run (sliceCount, sliceCapacity, treeSize with its
+   while / for loops) is the model's, so the two theorems above speak about what the header says now *)
+Theorem C15_packing_arithmetic_generated : forall cap, (0 < cap)%nat ->
+  (forall n, m_sliceCount_1 (tr cap) (Z.of_nat n) = Z.of_nat (sliceCount cap n)) /\
+  (forall n s, (0 < s)%nat -> c_sliceCapacity_2 (Z.of_nat n) (Z.of_nat s) = Z.of_nat (sliceCapacity n s)) /\
+  (forall n k, treeSize cap n = Some k -> m_treeSize_1 (tr cap) (Z.of_nat n) = Z.of_nat k).
+Proof. intros cap Hc. split; [intros n; apply gen_sliceCount; exact Hc|]. split; [intros n s; apply gen_sliceCapacity|].
+  intros n k. apply gen_treeSize; exact Hc. Qed.
+Print Assumptions C15_packing_arithmetic_generated.
+
+(* ... in particular the generated treeSize(numItems) is the number of nodes build() creates *)
+Theorem C15_generated_treeSize_is_node_count : forall cap leaves t, (2 <= cap)%nat -> leaves_ok leaves -> build cap leaves = Some t ->
+  m_treeSize_1 (tr cap) (Z.of_nat (length leaves)) = Z.of_nat (nnodes t).
+Proof. intros cap leaves t Hc Hl Hb. apply gen_treeSize; [lia|]. apply treeSize_exact; assumption. Qed.
+Print Assumptions C15_generated_treeSize_is_node_count.
 
 (* non-vacuity: a concrete history that is legal, with a removal, queries hitting 1..all-but-1 live items, and a nearest query *)
 Definition ex_ops : list op :=
